@@ -60,16 +60,31 @@ def write_conf(path, root, kind="full", servertype="ThreadingTCPServer", cacheti
 
 
 class Server:
-    def __init__(self, conf, cwd="/"):
+    def __init__(self, conf, cwd="/", capture_log=False):
         errdir = os.environ.get("PGV_LIVE_STDERR")
         self.errfile = open(os.path.join(errdir, "server-%d-%d.err" % (os.getpid(), id(self))), "wb") if errdir else None
         self.proc = subprocess.Popen([sys.executable, "-W", "ignore", "-c", SERVER_CODE, conf, drive.REPO],
                                      stdout=subprocess.PIPE, stderr=self.errfile or subprocess.DEVNULL, cwd=cwd,
                                      env=dict(os.environ, PYTHONDONTWRITEBYTECODE="1"))
-        line = self.proc.stdout.readline().decode()
+        # (with logmethod = file the server's log goes to the same stream; start-up records precede the PORT line)
+        self.logs = []
+        line = ""
+        for _ in range(200):
+            line = self.proc.stdout.readline().decode("latin-1")
+            if not line or line.startswith("PORT "):
+                break
+            self.logs.append(line.rstrip("\n"))
         if not line.startswith("PORT "):
             self.stop()
-            raise RuntimeError("live server did not start: %r" % line)
+            raise RuntimeError("live server did not start: %r %r" % (line, self.logs[-3:]))
+        if capture_log:
+            def pump():
+                try:
+                    for raw in self.proc.stdout:
+                        self.logs.append(raw.decode("latin-1").rstrip("\n"))
+                except (OSError, ValueError):
+                    pass
+            threading.Thread(target=pump, daemon=True).start()
         self.port = int(line.split()[1])
         self.pid = int(line.split()[2])  # differs from proc.pid when the server detached (the launched process has exited)
 
